@@ -11,6 +11,8 @@ from ..serde_tables import (SER, VAR, agg_payload, casts_in, int_entry_ok, numbe
 CONFIGS_QUICK = ["default", "sync", "specialized", "sync+specialized"]
 CONFIGS_THOROUGH = CONFIGS_QUICK
 
+HANDLES_CONFIGS = True
+
 EXPLANATION = (
     "(1) Feature-conditional code is confined: a lexical scan of every source file finds cfg/cfg_attr/cfg! conditions "
     "mentioning `feature` only in lib.rs. (2) The four feature sets are compiled by the real compiler and every MIR body "
@@ -40,6 +42,33 @@ EXPECTED_SPECIAL = set(INTS) | {
     "f32", "f64", "bool", "()", "std::string::String", "&'a str", "serde_json::Value", "&'a serde_json::Value",
     "variable::Variable", "&'a variable::Variable", "std::rc::Rc<variable::Variable>", "&'a std::rc::Rc<variable::Variable>",
 }
+
+
+def _int_range(t):
+    """(signed, bits) with pointer-sized types taken at their widest supported width (64)."""
+    return (t[0] == "i", 64 if t.endswith("size") else int(t[1:]))
+
+
+def widening_delegation_ok(b, o, st):
+    cs = casts_in(b)
+    calls = [t for _, t in b.calls()]
+    if len(cs) != 1 or len(calls) != 1 or cs[0][1] != st or cs[0][2] not in INTS:
+        return False, f"casts: {cs}"
+    to = cs[0][2]
+    (s1, w1), (s2, w2) = _int_range(st), _int_range(to)
+    # value preserving: same signedness and not narrower, or unsigned into a strictly wider signed type
+    lossless = (s1 == s2 and w2 >= w1 and not to.endswith("size")) or (not s1 and s2 and w2 > w1 and not to.endswith("size"))
+    if not lossless:
+        return False, f"cast {st} -> {to} does not preserve every value"
+    if (calls[0].get("resolved") or "") != spec_name(to):
+        return False, f"delegates to {calls[0].get('resolved') or calls[0]['callee']}"
+    a = o.of_operand(calls[0]["args"][0])
+    if not (len(a) == 1 and next(iter(a))[0] == "cast" and next(iter(a))[1] == ("param", 1)):
+        return False, f"delegate's argument is {fmt_terms(a)}, not the widened self"
+    r = o.of_local(0)
+    if not (r and all(t[0] == "call" and t[1] == calls[0]["callee"] for t in r)):
+        return False, f"result is {fmt_terms(r)}, not the delegate's result"
+    return True, f"widens losslessly to {to} and delegates"
 
 
 def spec_name(self_ty):
@@ -173,6 +202,10 @@ def check_conversions(ctx, lib, cfg):
             inner = unwrap_ok(ret)
             vs = variable_variants(inner) if inner is not None else None
             ok = ok and vs == {"Number"}
+            if not ok:
+                # equivalent spelling: one value-preserving widening cast of self, handed to the (separately checked)
+                # conversion of the wider type of the same signedness
+                ok, why = widening_delegation_ok(b, o, st)
             # generic side
             gm = lib.fn(SER + SERDE_PRIMITIVE[st])
             gok = False
